@@ -408,7 +408,7 @@ class Gen:
         if rest:
             args += [self.expr("int", sc, d - 2) for _ in range(self.r.choice([0, 1, 2]))]
         self.features.add("call-global")
-        if self.p(0.12):
+        if self.p(0.12 if len(args) < 5 else 0.5):
             self.features.add("apply-global")
             return [S("apply"), name] + args[:-1] + [[S("list")] + args[-1:]] if args else [S("apply"), name, [S("quote"), []]]
         return [name] + args
@@ -479,7 +479,7 @@ class Gen:
     def define_function(self, sc, d):
         r = self.r
         name = S("f%d" % len(self.funcs)) if self.p(0.8) else S(r.choice(["helper", "go", "step"]) + str(len(self.funcs)))
-        np_ = r.choice([0, 1, 1, 2, 2, 3])
+        np_ = r.choice([0, 1, 1, 2, 2, 3, 5, 6, 7])   # >= 5 parameters: spilled registers in the native tier
         ptypes = [r.choice(["int", "int", "list", "bool", "fn1", "vec", "box"]) for _ in range(np_)]
         ret = r.choice(["int", "int", "list", "bool"])
         rest = self.p(0.2)
@@ -521,7 +521,12 @@ class Gen:
                 comb = rec_call
             body.append([S("if"), [S("<="), n, 0], self.expr(ret, sc2, d - 1), comb])
             return [S("define"), [name] + plist] + body, name, True
-        body.append(self.expr(ret, sc2, d))
+        if np_ >= 5 and ret == "list" and "list" in ptypes[4:] and self.p(0.7):
+            late = params[4 + ptypes[4:].index("list")]
+            self.features.add("late-parameter-read-twice")
+            body.append(self.r.choice([[S("cons"), late, [S("list"), [S("length"), late]]], [S("list"), late, [S("cdr"), [S("cons"), 0, late]]]]))
+        else:
+            body.append(self.expr(ret, sc2, d))
         self.funcs[name] = (ptypes, ret, rest)
         return [S("define"), [name] + plist] + body, name, False
 
